@@ -167,8 +167,8 @@ func init() {
 		},
 		{
 			ID:          "C14",
-			Rules:       []RuleUse{{Rule: "R-TOKEN", Bodies: []string{"v5"}, KeyHas: []string{"ensurePathExists", "(Patch).add", "findObject"}}, use("R-TOKTAB", "v5"), {Rule: "R-NIL", Bodies: []string{"v5"}, KeyHas: []string{"ensurePathExists"}}, {Rule: "R-TYPESTATE", Bodies: []string{"v5"}, KeyHas: []string{"ensurePathExists"}}, {Rule: "R-RAW", Bodies: []string{"v5"}, KeyHas: []string{"ensurePathExists"}}, {Rule: "R-BOUNDS", Bodies: []string{"v5"}, KeyHas: []string{"ensurePathExists"}}},
-			Explanation: "Decided for the v5 body: R-TOKEN + R-TOKTAB (the names of the members that ensurePathExists looks up and creates are the reference tokens decoded exactly once with the RFC 6901 table; padding uses generated indices), R-NIL + R-TYPESTATE + R-RAW over ensurePathExists (no nil node, nil array container or nil raw message is dereferenced while walking and creating the path). R-BOUNDS over ensurePathExists (the look-ahead parts[pi+1] is in range).",
+			Rules:       []RuleUse{{Rule: "R-TOKEN", Bodies: []string{"v5"}, KeyHas: []string{"ensurePathExists", "(Patch).add", "findObject"}}, use("R-TOKTAB", "v5"), {Rule: "R-NIL", Bodies: []string{"v5"}, KeyHas: []string{"ensurePathExists"}}, {Rule: "R-TYPESTATE", Bodies: []string{"v5"}, KeyHas: []string{"ensurePathExists"}}, {Rule: "R-RAW", Bodies: []string{"v5"}, KeyHas: []string{"ensurePathExists"}}, {Rule: "R-BOUNDS", Bodies: []string{"v5"}, KeyHas: []string{"ensurePathExists"}}, use("R-ENSURE", "v5"), {Rule: "R-OPTS", Bodies: []string{"v5"}, KeyHas: []string{"ensurePathExists"}}},
+			Explanation: "Decided for the v5 body: R-TOKEN + R-TOKTAB (the names of the members that ensurePathExists looks up and creates are the reference tokens decoded exactly once with the RFC 6901 table; padding uses generated indices), R-NIL + R-TYPESTATE + R-RAW over ensurePathExists (no nil node, nil array container or nil raw message is dereferenced while walking and creating the path). R-BOUNDS over ensurePathExists (the look-ahead parts[pi+1] is in range). R-ENSURE (the option is read only in the add handler and the path walk runs only under it; containers and padding are created only on the `lookup of this token failed` edges, so existing parents are never overwritten; the number of padded nulls comes from a single index parse of the same iteration).",
 			NotDecided:  "that afterwards the value is found at the path, the padding count, and the frame condition (value-level).",
 			Trusted:     commonTrusted, Assumptions: commonAssumptions,
 		},
